@@ -1,5 +1,6 @@
 import DaskModel.Lemmas.ArrOverlapLemmas
 import DaskModel.Lemmas.ArrOverlapLocal
+import DaskModel.Lemmas.ArrOverlapBoundary
 /-!
 # C26 — overlap computations match the unchunked stencil (theorems)
 
@@ -71,6 +72,46 @@ example :
     let g : List Int → Int → List Int → Int := fun pre x post => pre.sum + x + post.sum
     (trimBlocks true 1 1 ((overlapBlocks 1 1 [[1, 2], [3, 4, 5], [6, 7]]).map (winFn 1 1 g))).flatten
       = winFn 1 1 g [1, 2, 3, 4, 5, 6, 7] := by decide
+
+/-- **`map_overlap` with a boundary other than 'none' = pad – apply – trim on the whole axis.** `padL`, `padR` are
+    the `d` cells the boundary kind puts before and after the axis (periodic / reflect / nearest / constant: the index
+    maps `padPositions`, diffed cell by cell against `boundaries()` and `np.pad`). For every function that looks at most
+    `d` cells back and `d` ahead and every chunking whose blocks have at least `d` cells (what `ensure_minimum_chunksize`
+    establishes): mapping over the blocks of `overlap(x, d, boundary)` and trimming `d` cells off both sides of every
+    block gives exactly the function applied to the padded axis with the pads cut off again. -/
+theorem map_overlap_boundary_eq_global {α β : Type} (d : Nat) (g : List α → α → List α → β) (padL padR : List α)
+    (blocks : List (List α)) (hl : padL.length = d) (hr : padR.length = d)
+    (hbig : ∀ blk ∈ blocks, d ≤ blk.length) :
+    (trimBlocks false d d ((overlapWithBoundary d padL padR blocks).map (winFn d d g))).flatten
+      = ((winFn d d g (padL ++ blocks.flatten ++ padR)).drop d).take blocks.flatten.length := by
+  rw [map_overlap_boundary d g padL padR blocks (by omega) (by omega) hbig, win_pad_middle, hl]
+
+/-- non-vacuity: a 3-point sum with periodic boundary over chunks (2, 3): pads are x[-1:] and x[:1] -/
+example :
+    let g : List Int → Int → List Int → Int := fun pre x post => pre.sum + x + post.sum
+    (trimBlocks false 1 1 ((overlapWithBoundary 1 [5] [1] [[1, 2], [3, 4, 5]]).map (winFn 1 1 g))).flatten
+      = [8, 6, 9, 12, 10] := by decide
+example : overlapWithBoundary 1 [5] [1] [[1, 2], [3, 4, 5]] = [[5, 1, 2, 3], [2, 3, 4, 5, 1]] := by decide
+
+/-- **`sliding_window_view`** (one axis, window `d + 1`): every block is extended by the first `d` cells of its right
+    neighbour (`map_overlap(..., depth=(0, d), boundary='none', trim=False)`), NumPy's `sliding_window_view` is applied
+    per block, and the results, concatenated in block order, are exactly NumPy's windows of the whole axis — for every
+    chunking whose blocks have at least `d` cells (the code makes them `≥ d + 1` with `ensure_minimum_chunksize`). -/
+theorem sliding_window_view_eq_global {α : Type} (d : Nat) (blocks : List (List α))
+    (hbig : ∀ blk ∈ blocks, d ≤ blk.length) :
+    (slidingBlocks (d + 1) blocks).flatten = windows (d + 1) blocks.flatten := by
+  unfold slidingBlocks overlapBlocks
+  exact sliding_aux d blocks none hbig
+
+/-- non-vacuity: window 3 over chunks (3, 2, 3) -/
+example : slidingBlocks 3 [[0, 1, 2], [3, 4], [5, 6, 7]]
+    = [[[0, 1, 2], [1, 2, 3], [2, 3, 4]], [[3, 4, 5], [4, 5, 6]], [[5, 6, 7]]] := by decide
+example : windows 3 [0, 1, 2, 3, 4, 5, 6, 7] = [[0, 1, 2], [1, 2, 3], [2, 3, 4], [3, 4, 5], [4, 5, 6], [5, 6, 7]] := by
+  decide
+
+/-- the guard is needed: a block shorter than `d` cannot supply its left neighbour's windows -/
+theorem sliding_window_needs_guard :
+    (slidingBlocks 3 [[0, 1, 2], [3], [4, 5]]).flatten ≠ windows 3 [0, 1, 2, 3, 4, 5] := by decide
 
 theorem ensure_min_ok (size : Nat) (chunks r : List Nat) (h : ensureMin size chunks = some r) :
     r.sum = chunks.sum ∧ ∀ c ∈ r, size ≤ c :=
